@@ -747,3 +747,70 @@ def numeric_labels(sc, base, seed, pid="C05"):
 
 def numeric_labels_c15(sc, base, seed):
     return numeric_labels(sc, base, seed, pid="C15")
+
+
+def copy_midrun(sc, base, seed, pid="C10"):
+    """the simulation is deep-copied (or pickled and loaded) in the middle of the run and the run is continued with the copy,
+    the original being left alone: same records as the uninterrupted run"""
+    out = []
+    if "error" in base or seed % 2 != 0:
+        return out
+    import pickle
+    dt = int(sc["model"].get("dt", 1))
+    nsteps = len(range(0, sc["T"], dt))
+    if nsteps < 3:
+        return out
+    rng = random.Random(seed + 53)
+    j = rng.randint(1, nsteps - 1)
+    how = rng.choice(["deepcopy", "deepcopy", "pickle"])
+    tw = copy.deepcopy(sc)
+    tw["sim"]["save_records"] = []          # (records kept as files are memory maps of one directory: not what is copied here)
+    tw["sim"]["show_progress"] = False
+    ref = base if not sc["sim"].get("save_records") else run_records(tw)
+    if "error" in ref:
+        return out
+    try:
+        sim = scen.build_sim(tw)
+        crashed = False
+        for _ in range(j):
+            if sim.next_step() == 1:
+                crashed = True
+                break
+        if crashed:
+            return out
+        if how == "pickle":
+            try:
+                sim2 = pickle.loads(pickle.dumps(sim))
+            except Exception:
+                how = "deepcopy"          # (user-defined recovery functions defined in a script do not pickle)
+                sim2 = copy.deepcopy(sim)
+        else:
+            sim2 = copy.deepcopy(sim)
+        for _ in range(j * dt, sc["T"], dt):
+            if sim2.next_step() == 1:
+                crashed = True
+                break
+        b = {r: getattr(sim2, r).to_numpy(dtype=float).copy() for r in RECORDS}
+        b["n"] = int(sim2.current_temporal_unit)
+        b["crashed"] = bool(crashed)
+        b["columns"] = list(sim2.production_realised.columns)
+        untouched = int(sim.current_temporal_unit)
+    except Exception as e:
+        out.append(viol(pid, j * dt, f"a simulation copied ({how}) after {j} steps cannot be continued: {type(e).__name__}: {str(e)[:150]}"))
+        return out
+    if untouched != j * dt:
+        out.append(viol(pid, j * dt, f"continuing the copy ({how}) of a simulation advanced the original (clock {untouched}, expected {j * dt})"))
+    out += cmp_records(pid, ref, b, f"run continued with a copy ({how}) of the simulation taken after {j} steps")
+    return out
+
+
+def copy_midrun_c09(sc, base, seed):
+    return copy_midrun(sc, base, seed, pid="C09")
+
+
+def copy_midrun_c11(sc, base, seed):
+    return copy_midrun(sc, base, seed, pid="C11")
+
+
+def copy_midrun_c08(sc, base, seed):
+    return copy_midrun(sc, base, seed, pid="C08")
